@@ -11,7 +11,11 @@ use std::hash::{Hash, Hasher};
 use std::sync::atomic::{AtomicBool, AtomicUsize, Ordering};
 use std::time::{Duration, Instant};
 
-pub const VERIF_DIR: &str = "/verif";
+/// root of the verification tree (evidence/, replays/, known_findings.txt, shim/, target/scratch);
+/// `bin/check` exports its own location so that a snapshot copy never writes into /verif
+pub fn verif_dir() -> String {
+    std::env::var("PGMC_verif_dir()").unwrap_or_else(|_| "/verif".to_string())
+}
 
 #[derive(Clone, Copy, PartialEq, Eq, Debug)]
 pub enum Tier {
@@ -354,7 +358,7 @@ pub struct Known {
 impl Known {
     pub fn load() -> Known {
         let mut known = Vec::new();
-        let path = format!("{}/known_findings.txt", VERIF_DIR);
+        let path = format!("{}/known_findings.txt", verif_dir());
         if let Ok(txt) = std::fs::read_to_string(&path) {
             for line in txt.lines() {
                 let line = line.trim();
@@ -423,7 +427,7 @@ pub fn finish(
     let mut exit = 0;
     let mut reported = Vec::new();
     let mut known_hits = Vec::new();
-    let dir = format!("{}/replays/{}", VERIF_DIR, meta.prop);
+    let dir = format!("{}/replays/{}", verif_dir(), meta.prop);
     let _ = std::fs::remove_dir_all(&dir);
     let viols: Vec<Violation> = acc.violations.values().cloned().collect();
     for v in &viols {
@@ -493,7 +497,7 @@ pub fn finish(
         "wall_s": (budget.elapsed() * 1000.0).round() / 1000.0,
         "violations": reported_len(&coverage),
     });
-    let evdir = format!("{}/evidence", VERIF_DIR);
+    let evdir = format!("{}/evidence", verif_dir());
     let _ = std::fs::create_dir_all(&evdir);
     std::fs::write(format!("{}/{}.json", evdir, meta.prop), serde_json::to_string_pretty(&ev).unwrap() + "\n")
         .expect("write evidence");
